@@ -54,22 +54,22 @@ type Engine struct {
 	solverMu  *sync.Mutex // one solver session at a time
 	inSession bool        // this worker holds solverMu (per-worker copy field)
 	Workers   int
-	prog   *ssa.Program
-	Solver *smt.Solver
-	Log    io.Writer
+	prog      *ssa.Program
+	Solver    *smt.Solver
+	Log       io.Writer
 
 	// options
-	FeasCheck bool
-	TraceExec bool
-	Unwind    int
-	MaxDepth  int
-	MaxEnum   int
-	MaxAlloc  int
-	NoMerge   bool
+	FeasCheck     bool
+	TraceExec     bool
+	Unwind        int
+	MaxDepth      int
+	MaxEnum       int
+	MaxAlloc      int
+	NoMerge       bool
 	MergeReleases bool // execute Unlock/RUnlock/WaitGroup.Add without a scheduling point (left movers)
-	MergeFull bool // merge differing states under selector variables (symbolic schedule); default: join identical states only
-	MaxConfigs int
-	Deadline  time.Time
+	MergeFull     bool // merge differing states under selector variables (symbolic schedule); default: join identical states only
+	MaxConfigs    int
+	Deadline      time.Time
 
 	Stats Stats
 
@@ -78,14 +78,14 @@ type Engine struct {
 	atomicFns  map[string]bool
 	visibleFns map[string]VisKind
 
-	objIDs    *sync.Map // objKey -> ObjID
-	nObj      *int
-	threadIDs *sync.Map // threadKey -> ThreadID
+	objIDs      *sync.Map // objKey -> ObjID
+	nObj        *int
+	threadIDs   *sync.Map // threadKey -> ThreadID
 	threadKeyOf *sync.Map // ThreadID -> threadKey
-	nThr      *int
-	localFuncs map[*ssa.Function]bool // per-worker set of functions entered
-	globals   map[*ssa.Global]ObjID
-	initPkgs  map[string]bool
+	nThr        *int
+	localFuncs  map[*ssa.Function]bool // per-worker set of functions entered
+	globals     map[*ssa.Global]ObjID
+	initPkgs    map[string]bool
 
 	runtimeErrT types.Type
 	panicNilT   types.Type
@@ -94,41 +94,43 @@ type Engine struct {
 	strToBytes map[*term.Term]Slice
 	bytesAx    map[int]bool
 
-	symVars    map[string]*term.Term // vrt labels -> variable
-	symOrder   []string
-	symOrd     *[]string
-	assumes    *int64
-	Violations []*Violation
-	violSeen   map[string]bool
+	symVars      map[string]*term.Term // vrt labels -> variable
+	symOrder     []string
+	symOrd       *[]string
+	assumes      *int64
+	Violations   []*Violation
+	violSeen     map[string]bool
 	Inconclusive []string
 	inconcl      *[]string
 	viol         *[]*Violation
 	witness      **Violation
-	Funcs      map[string]bool
-	ModelsUsed map[string]bool
-	Assumes    int
-	Witness    *Violation // reachability witness (model of a completed path)
-	nsel       int
-	nclock     int
-	ntoken     int
-	durStrs    map[*term.Term]*term.Term
-	fnIDs      *sync.Map
-	nFn        *int
+	Funcs        map[string]bool
+	ModelsUsed   map[string]bool
+	Assumes      int
+	Witness      *Violation // reachability witness (model of a completed path)
+	nsel         int
+	nclock       int
+	ntoken       int
+	durStrs      map[*term.Term]*term.Term
+	fnIDs        *sync.Map
+	nFn          *int
 
-	harnessName string
-	promoted    map[ssa.Instruction]bool // racy accesses promoted to visible operations
-	RaceInstrs  map[ssa.Instruction]bool
-	RaceCheck   bool
+	harnessName     string
+	promoted        map[ssa.Instruction]bool // racy accesses promoted to visible operations
+	RaceInstrs      map[ssa.Instruction]bool
+	RaceCheck       bool
 	RaceIsViolation bool
-	curThread   ThreadID
-	curInstr    ssa.Instruction
-	Races       map[string]string
-	WitnessWanted bool
-	ReportAll     bool
-	Progress      bool
-	RepoRoot      string
-	OnViolation   func(*Violation)
-	Observations  []string
+	curThread       ThreadID
+	curInstr        ssa.Instruction
+	Races           map[string]string
+	Reached         map[string]bool
+	snapCodec       string
+	WitnessWanted   bool
+	ReportAll       bool
+	Progress        bool
+	RepoRoot        string
+	OnViolation     func(*Violation)
+	Observations    []string
 }
 
 func NewEngine(prog *ssa.Program, solver *smt.Solver) *Engine {
@@ -140,8 +142,8 @@ func NewEngine(prog *ssa.Program, solver *smt.Solver) *Engine {
 		initPkgs: map[string]bool{}, probes: map[*term.Term]*term.Term{}, strToBytes: map[*term.Term]Slice{},
 		bytesAx: map[int]bool{}, symVars: map[string]*term.Term{}, violSeen: map[string]bool{},
 		Funcs: map[string]bool{}, ModelsUsed: map[string]bool{}, fnIDs: &sync.Map{},
-		durStrs: map[*term.Term]*term.Term{},
-		promoted: map[ssa.Instruction]bool{}, RaceInstrs: map[ssa.Instruction]bool{}, Races: map[string]string{}, RaceCheck: true,
+		durStrs:  map[*term.Term]*term.Term{},
+		promoted: map[ssa.Instruction]bool{}, RaceInstrs: map[ssa.Instruction]bool{}, Races: map[string]string{}, Reached: map[string]bool{}, RaceCheck: true,
 	}
 	e.inconcl = &e.Inconclusive
 	e.symOrd = &e.symOrder
